@@ -147,6 +147,36 @@ CLAIMS = {
              "basis elements cannot be frozen by numpy flags and stay writable. Known finding F5 (cached projection closure).",
         technique=TECH + "interprocedural alias/effect analysis with origin tracking, typestate/must-write analysis, cache-coherence "
                          "rules over class attribute readers and writers"),
+    "C06": dict(
+        text="Decides structural necessary conditions of composition for all operands: (O1) the 12 dispatched type pairs read only "
+             "attributes their guarded classes have, with the right kind; (O2) wherever HS matrices of both operands are multiplied the "
+             "later operation is the left factor, and maps act on states from the left; (O3) flat lists filled by a nested loop over both "
+             "operands' outcomes are labelled by a shape concatenated in the same order, and all composition helpers are "
+             "earlier-operation-major; (O4) Heisenberg products put the POVM vector on the left of the map, the outcome probability is the "
+             "trace functional (sqrt(d) * coefficient 0) and the post-state is divided by its own probability; (S1) the projective "
+             "back-action takes eigenvectors as columns and builds v v-dagger; (O5) the n-ary fold is right-to-left.",
+        note="Not decided: Born-rule numbers, normalisation, physicality of composites, associativity as an equality of numbers.",
+        technique=TECH + "guard-typed attribute checking, operand-ownership analysis of matrix products and loop nests, spectral "
+                         "discipline rules, scalar d-exponent normal form"),
+    "C07": dict(
+        text="Decides: (K1) the identity blocks padding the commutation matrix in the vec-permutation are products of the sizes they "
+             "stand for (dimension algebra of kron), with the commutation block built from the swapped neighbours; (O3) product "
+             "measurements / ensembles fill their flat lists in the order their shape concatenates the operands; (O1) the 13 tensor "
+             "dispatch branches read existing attributes and unsupported pairs raise; (P1) CompositeSystem sorts a copy of its systems "
+             "by name before storing and builds the ordered product basis from the stored tuple; (P2) every helper multiplies operand 1 "
+             "first and derives its permutation from the same unsorted concatenation it multiplied in.",
+        note="Not decided: that the permutation matrices are the right permutations, product statistics, the qutrit embedding "
+             "(numerical). Known finding F2 (measurement-process tensor layout vs shape).",
+        technique=TECH + "aggregate-operator (dimension algebra) check, loop-nest/shape ownership agreement, guard-typed attribute "
+                         "checking, CFG dominance"),
+    "C16": dict(
+        text="Layout clauses only: (X2) exact symbolic evaluation of the two index functions for every rank 1..4 and all radices shows "
+             "the encoder is row-major and encoder/decoder are mutual inverses on 0 <= s < prod n; (X1) the six users of multi-indices "
+             "go through the encoder with their own shape or through a default-order reshape; (X3) two-index lists are filled in the order "
+             "their shape states.",
+        note="Not decided: marginals, conditionals, normalisation, zero thresholds (numerical). Known finding F2.",
+        technique=TECH + "exact symbolic interpretation (polynomial normal forms, divmod with range reasoning, loop unrolling), "
+                         "who-may-compute rule, loop-nest/shape agreement"),
 }
 
 NOT_APPLICABLE = {
